@@ -274,7 +274,7 @@ def main(tier, seed):
     rep.note("fresh_interpreter_spawns", len(jobs))
     hist = []
     for nm in names:
-        menu = list(range(len(OPS))) if nm in ("D7", "D12") else ([1, 3, 5, 6, 10, 11, 12] if nm in ("D3", "D5edge0", "D6edge1") else list(range(0, len(OPS), 2)) + [10, 11, 12])
+        menu = list(range(len(OPS))) if (nm == "D7" or (nm == "D12" and not q)) else ([1, 3, 5, 6, 10, 11, 12] if nm in ("D3", "D12", "D5edge0", "D6edge1") else list(range(0, len(OPS), 2)) + [10, 11, 12])
         for dpt in range(1, depth + 1):
             if dpt == 3 and nm not in ("D3", "D7"):
                 continue
@@ -287,7 +287,7 @@ def main(tier, seed):
     bo = []
     T4 = (313.15, 323.15, 333.15, 343.15)
     T5 = (303.15, 318.15, 333.15, 348.15, 363.15)
-    for k in range(4 if q else 10):
+    for k in range(3 if q else 10):
         for law, ci in (("lawA", 0), ("lawB", 1)):
             bo.append({"data": (law, ci, T4, (0.08, 0.33, 0.45, 0.95), k), "n": 1, "m": 3, "include_zero": False})
             if not q:
